@@ -14,15 +14,32 @@
 #include "stack.h"
 #include "html.h"
 #include "parser.h"
+#ifdef KIND_GLOSSARY          /* the glossary call site has the same shape: href "#gn:N", id "gnref:N", used_glossaries, glossary_from_bracket */
+#define FROM_BRACKET glossary_from_bracket
+#define USED used_glossaries
+#define TOK PAIR_BRACKET_GLOSSARY
+#define TOK_LEFT BRACKET_GLOSSARY_LEFT
+#define HREF "<a href=\"#gn:%d\""
+#define IDATTR " id=\"gnref:"
+#else
+#define FROM_BRACKET footnote_from_bracket
+#define USED used_footnotes
+#define TOK PAIR_BRACKET_FOOTNOTE
+#define TOK_LEFT BRACKET_FOOTNOTE_LEFT
+#define HREF "<a href=\"#fn:%d\""
+#define IDATTR " id=\"fnref:"
+#endif
 void mmd_export_token_html(DString * out, const char * source, token * t, scratch_pad * scratch);
 static short g_num; static bool g_first; static token * g_note;
 static unsigned g_anchor, g_id, g_href_ok, g_id_ok;
-void footnote_from_bracket(const char * source, scratch_pad * scratch, token * t, short * num) {
+void FROM_BRACKET(const char * source, scratch_pad * scratch, token * t, short * num) {
 	ASSERT(t == g_note, "the footnote token is classified");
 	*num = g_num;
-	if (g_first && g_num != -1) { scratch->used_footnotes->size++; }
+	if (g_first && g_num != -1) { scratch->USED->size++; }
 }
 void mmd_print_string_html(DString * out, const char * str, bool obfuscate, bool line_breaks) { }
+static footnote g_fn;
+void * stack_peek_index(stack * s, size_t index) { g_fn.clean_text = "x"; return &g_fn; }      /* the note used (its text is printed through the escaper) */
 void mmd_export_token_tree_html(DString * out, const char * source, token * t, scratch_pad * scratch) { }
 void d_string_append(DString * d, const char * s) { }
 void d_string_append_c(DString * d, char c) { }
@@ -33,7 +50,7 @@ static bool has(const char * fmt, const char * needle) {
 }
 void d_string_append_printf(DString * d, const char * fmt, ...) {
 	va_list ap; va_start(ap, fmt);
-	bool anchor = has(fmt, "<a href="), id = has(fmt, " id=\"fnref:");
+	bool anchor = has(fmt, "<a href="), id = has(fmt, IDATTR);
 	int nint = 0; int ints[4] = { 0, 0, 0, 0 };
 	for (int i = 0; i < 100 && fmt[i]; i++) {
 		if (fmt[i] == '%') {
@@ -46,7 +63,7 @@ void d_string_append_printf(DString * d, const char * fmt, ...) {
 	va_end(ap);
 	if (anchor) {
 		g_anchor++;
-		if (has(fmt, "<a href=\"#fn:%d\"") && (short)ints[0] == g_num) { g_href_ok++; }
+		if (has(fmt, HREF) && (short)ints[0] == g_num) { g_href_ok++; }
 		if (id) { g_id++; if (nint >= 2 && (short)ints[1] == g_num) { g_id_ok++; } }
 	}
 }
@@ -61,14 +78,14 @@ void h_footnote_call(void) {
 	scratch_pad * scratch = ALLOC(sizeof(scratch_pad));
 	{ IN(unsigned long, ext); ASSUME((ext & EXT_NOTES) && !(ext & EXT_RANDOM_FOOT)); scratch->extensions = ext; }
 	scratch->padded = 2; scratch->recurse_depth = 1; scratch->skip_token = 0;
-	scratch->used_footnotes = ALLOC(sizeof(stack)); { IN(size_t, sz); ASSUME(sz < 100); scratch->used_footnotes->size = sz; }
-	g_note = mk(PAIR_BRACKET_FOOTNOTE, 4, 4); g_note->child = mk(BRACKET_FOOTNOTE_LEFT, 4, 2); g_note->child->next = mk(TEXT_PLAIN, 6, 1);
+	scratch->USED = ALLOC(sizeof(stack)); { IN(size_t, sz); ASSUME(sz < 100); scratch->USED->size = sz; }
+	g_note = mk(TOK, 4, 4); g_note->child = mk(TOK_LEFT, 4, 2); g_note->child->next = mk(TEXT_PLAIN, 6, 1);
 	{ IN(short, n); ASSUME(n == -1 || (n >= 1 && n < 1000)); g_num = n; IN(bool, f); g_first = f; }
 	DString * out = ALLOC(sizeof(DString)); out->str = ALLOC(8); out->str[0] = 0; out->currentStringLength = 0; out->currentStringBufferSize = 8;
 	mmd_export_token_html(out, source, g_note, scratch);
 	if (g_num != -1) {
-		ASSERT(g_anchor == 1 && g_href_ok == 1, "C10: one anchor, pointing at the note's entry #fn:N");
-		ASSERT(g_id == (g_first ? 1u : 0u) && g_id_ok == g_id, "C10: the call carries id=\"fnref:N\" iff it is the first use of footnote N (the entry's back-link points there)");
+		ASSERT(g_anchor == 1 && g_href_ok == 1, "C10: one anchor, pointing at the note's list entry (#fn:N / #gn:N)");
+		ASSERT(g_id == (g_first ? 1u : 0u) && g_id_ok == g_id, "C10: the call carries the back-link target id (fnref:N / gnref:N) iff it is the first use of note N (the list entry links back to the first call)");
 	} else {
 		ASSERT(g_anchor == 0, "a malformed footnote call prints no anchor");
 	}
